@@ -445,7 +445,7 @@ def catalogue():
         'int': (lambda: IntRange(0, 10), [1, 7, 10, 0], [55, -1, 3.7, '3', None, [1]]),
         'float': (lambda: FloatRange(-100, 100), [1.0, 0.1 + 0.2, -99.5, 1e-300], ['x', 1000.5, None, [1.0]]),
         'floatu': (lambda: FloatRange(), [0.0, 5e-324, -1.7e308, 123456789.12345679], ['1.5', None, {}]),
-        'scaled': (lambda: ScaledInteger(0.1, -10, 10), [1.0, 0.1 * 3, -7.7, 10.0], ['x', 5000, None, [3]]),
+        'scaled': (lambda: ScaledInteger(0.1, -10, 10), [1.0, 0.1 * 3, 43 * 0.1, -8.6], ['x', 5000, None, [3]]),
         'bool': (BoolType, [False, True, False, True], [5, 'yes', None]),
         'string': (lambda: StringType(isUTF8=True), ['', 'a"\\\né\U0001f600 /', 'l1\nl2\t{}[],: "k": 1', ' '], [5, None, ['a'], {'a': 1}]),
         'blob': (lambda: BLOBType(0, 16), [b'', b'\x00\xff\x80', b'0123456789abcdef', b'{'],
@@ -460,7 +460,7 @@ def catalogue():
                    [{'i': 0, 's': ''}, {'i': 3, 's': 't'}, {'i': 10, 's': '{"i": 1}'}, {'i': 1, 's': '\\'}],
                    [{'i': 3}, {'i': 3, 's': '', 'z': 1}, {'i': 55, 's': ''}, [1], None, {'i': 's', 's': 3}]),
         'nested': (lambda: ArrayOf(StructOf(a=ScaledInteger(0.01, 0, 1), e=EnumType('e', x=0, y=1), b=BoolType()), 0, 3),
-                   [(), ({'a': 0.07, 'e': 1, 'b': True},),
+                   [(), ({'a': 0.29, 'e': 1, 'b': True},),
                     ({'a': 0.0, 'e': 0, 'b': False}, {'a': 1.0, 'e': 1, 'b': True}), ({'a': 0.5, 'e': 0, 'b': True},)],
                    [[{'a': 7}], [{'a': 7, 'e': 1, 'b': True}] * 4, [1], None, [{'a': 500, 'e': 1, 'b': True}]]),
     }
@@ -744,6 +744,18 @@ class World:
                            'skip': self.skip_flag() if self.m is not None else False})
         return out
 
+    def reload(self, plan=None):
+        """loadParameters(): what a driver does when it detects a power cycle of the hardware"""
+        entries, descr = self.stored_entries()
+        before = self.cur_vals(self.m)
+        out = self.call(self.m.loadParameters, plan, 'reload', False)
+        ret = self.trace.pop()
+        ret.update(ev='reload', file=entries, descr=descr, before=before, ok=out == 'ok', cfg={p: '-' for p in before},
+                   got=self.cur_vals(self.m) if self.m is not None else before)
+        ret['def'] = before
+        self.trace.append(ret)
+        return out
+
     def stop(self):
         """the process ends between two calls"""
         self.m = None
@@ -1015,7 +1027,8 @@ def replay_group(job):
 
 _TLC_FIELDS = {'fs': ('ev', 'op', 'out', 'target', 'cur', 'vals'), 'boot': ('ev', 'pre', 'file'),
                'start': ('ev', 'ok', 'cfg', 'def', 'got', 'skip', 'target', 'cur'),
-               'ret': ('ev', 'call', 'out', 'must', 'faults', 'target', 'cur', 'skip')}
+               'ret': ('ev', 'call', 'out', 'must', 'faults', 'target', 'cur', 'skip'),
+               'reload': ('ev', 'out', 'ok', 'file', 'before', 'got', 'faults', 'target', 'cur', 'skip')}
 
 
 def tlc_view(trace):
@@ -1083,9 +1096,13 @@ def trace_signature(trace, l, clause, types):
                 return sig
     sig = {'module': 'Persistent', 'clause': clause, 'event': ev.get('ev')}
     if ev.get('ev') == 'fs':
-        sig.update(op=ev['op'], out=ev['out'].split(':')[0])
+        sig.update(op=ev['op'], out=ev['out'].split(':')[0],
+                   target='object_not_standing_for_current_values' if ev['target'].startswith('c:') else ev['target'])
     if ev.get('ev') == 'ret':
         sig.update(call=ev['call'], out=ev['out'], faulted=ev['faults'] > 0)
+    if ev.get('ev') == 'reload' and clause == 'Reload.values':
+        sig = start_signature(ev, ev, types)
+        sig['at'] = 'reload'
     if ev.get('ev') == 'boot' and clause == 'RoundTrip':
         sig['dtype'] = '?'
     return sig
@@ -1171,6 +1188,8 @@ def random_history(arg):
         r = rnd.random()
         if r < 0.12 and w.m.writeDict:
             w.write_init(_rand_plan(rnd, pfault=0.2))
+        elif r < 0.17:
+            w.reload()
         elif r < 0.62:
             p = rnd.choice(w.pnames)
             w.change(p, rnd.choice(w.values[p]), _rand_plan(rnd))
@@ -1426,7 +1445,32 @@ def _gen_pass(chk, name, cfg, nchunks, shapes_per, want_traces, tracebag, strict
 def _validate(chk, items):
     """code -> spec: TLC judges the recorded executions"""
     traces = [tlc_view(x['trace']) for x in items]
+    # binding self test: corrupt one field of recorded executions -> TLC must reject exactly there
+    canaries = []
+    for x in traces:
+        k = next((i for i, e in enumerate(x) if e['ev'] == 'fs' and e['op'] == 'rename' and e['out'] == 'ok'), None)
+        j = next((i for i, e in enumerate(x) if e['ev'] == 'start' and e['ok']), None)
+        if k is not None and j is not None and k < j:
+            a = json.loads(json.dumps(x))
+            a[k]['target'] = 'partial'
+            b = json.loads(json.dumps(x))
+            p = sorted(b[j]['got'])[0]
+            b[j]['got'][p] = 'x_corrupted'
+            c = json.loads(json.dumps(x))
+            c[j]['target'] = 'absent'
+            canaries = [(a, k + 1, 'Atomic'), (b, j + 1, 'Values'), (c, j + 1, 'Consistent')]
+            break
+    if not canaries:
+        raise MachineryError('no recorded execution with a completed save and a start (vacuous trace set)')
+    traces += [c[0] for c in canaries]
     verdicts, st, tr = validate_traces('Trace_Persistent', traces, 'Trace_Persistent.cfg', timeout=1100)
+    for n, (c, l, clause) in enumerate(canaries):
+        v = verdicts.pop(len(items) + n)
+        if v is None or (clause and (v[0], v[1]) != (l, clause)):
+            raise MachineryError(f'trace validation is not binding: corrupted trace {n} got verdict {v}, '
+                                 f'expected rejection at {l} {clause}')
+    del traces[len(items):]
+    chk.notes['binding_selftest'] = 'corrupted target class after rename / restored value / target class at start: each rejected by TLC at that event'
     chk.states += st
     chk.transitions += tr
     redo = []
